@@ -24,7 +24,14 @@ fn one_target<T: Elem>(ctx: &mut Ctx, t: Target<T>) {
     };
     let mut rng = ctx.rng.split();
     let mut run = Run::new(ctx, t, pack);
-    let bvec = |run: &Run<T>, b: Vec<T>| if two { b } else { let _ = run; Vec::new() };
+    let bvec = |run: &Run<T>, b: Vec<T>| {
+        if two {
+            b
+        } else {
+            let _ = run;
+            Vec::new()
+        }
+    };
 
     // every length, mixed values
     let reps = tier.pick(2, 20);
@@ -48,7 +55,11 @@ fn one_target<T: Elem>(ctx: &mut Ctx, t: Target<T>) {
         }
         for (i, &x) in bounds.iter().enumerate() {
             let ys: Vec<T> = if two {
-                if tier == Tier::Thorough { bounds.clone() } else { vec![bounds[(i * 7 + 3) % bounds.len()], x] }
+                if tier == Tier::Thorough {
+                    bounds.clone()
+                } else {
+                    vec![bounds[(i * 7 + 3) % bounds.len()], x]
+                }
             } else {
                 vec![T::zero()]
             };
